@@ -68,6 +68,9 @@ func judge(sc *Scenario, x *vrt.Execution) []verdict {
 				add("C03", "C03:"+panicClass(x), desc)
 			}
 		}
+		if sc.Mode == "pipeline" && !cancelling {
+			add("C03", "C03:real-"+panicClass(x), desc) // a pipeline whose commands terminate must return
+		}
 		add("C14", "C14:"+panicClass(x), desc)
 		add("C11", "C11:"+panicClass(x), desc)
 		return v
